@@ -684,6 +684,20 @@ loop:
 			if strm == nil {
 				// if the stream doesn't exist, create it
 
+				if fr.Type() == FramePriority {
+					// PRIORITY can name a stream in any state, idle included, and
+					// opens nothing (RFC 7540 5.3.4, 6.3). Giving it a stream of
+					// its own hid the request that later arrived on the same id
+					// behind an idle twin, and cost a stream and a request context
+					// that nothing ever gave back.
+					if pry, ok := fr.Body().(*Priority); ok && pry.Stream() == fr.Stream() {
+						sc.writeGoAway(fr.Stream(), ProtocolError, "stream that depends on itself")
+						break loop
+					}
+
+					continue
+				}
+
 				if fr.Type() == FrameResetStream {
 					// only send go away on idle stream not on an already-closed stream
 					if fr.Stream() > sc.lastID {
